@@ -282,7 +282,77 @@ func (execEngine) Isolated(op string) bool {
 	return strings.Contains(op, "closepanic") || os.Getenv("PCVH_ISOLATE_ALL") == "1"
 }
 
+// execDpCompile: the resolver supplies a custom google/protobuf/descriptor.proto (the real text plus
+// `import "x.proto";`), so that x.proto depends on descriptor.proto implicitly and descriptor.proto
+// on x.proto explicitly. Outside the LTS: the answer is `nondet ~ <what happened>`.
+func execDpCompile(op string) string {
+	w := strings.Fields(op)
+	par, req := 2, []string{"x.proto"}
+	for _, kv := range w[1:] {
+		k, v, _ := strings.Cut(kv, "=")
+		switch k {
+		case "par":
+			par, _ = strconv.Atoi(v)
+		case "req":
+			req = nil
+			for _, r := range strings.Split(v, ",") {
+				if r == "dp" {
+					req = append(req, "google/protobuf/descriptor.proto")
+				} else {
+					req = append(req, r+".proto")
+				}
+			}
+		default:
+			return "bad-op"
+		}
+	}
+	dp, err := os.ReadFile(execRepoFile("wellknownimports/google/protobuf/descriptor.proto"))
+	if err != nil {
+		return "bad-op descriptor.proto not found: " + err.Error()
+	}
+	custom := strings.Replace(string(dp), "package google.protobuf;", "package google.protobuf;\nimport \"x.proto\";", 1)
+	if custom == string(dp) {
+		return "bad-op descriptor.proto has no package line"
+	}
+	var x strings.Builder
+	x.WriteString("syntax = \"proto3\";\nmessage X {}\n")
+	for i := 0; i < 3000; i++ {
+		fmt.Fprintf(&x, "message F%d {}\n", i)
+	}
+	srcs := map[string]string{"google/protobuf/descriptor.proto": custom, "x.proto": x.String()}
+	comp := protocompile.Compiler{
+		Resolver:       &protocompile.SourceResolver{Accessor: protocompile.SourceAccessorFromMap(srcs)},
+		MaxParallelism: par,
+	}
+	ctx, cancel := context.WithTimeout(context.Background(), 3*time.Second)
+	defer cancel()
+	_, err = comp.Compile(ctx, req...)
+	switch {
+	case err == nil:
+		return "nondet ~ ok"
+	case errors.Is(err, context.DeadlineExceeded):
+		return "nondet ~ hang"
+	case strings.Contains(err.Error(), "cycle found in imports"):
+		return "nondet ~ cycle " + Canon(err.Error())
+	default:
+		return "nondet ~ err " + Canon(err.Error())
+	}
+}
+
+// execRepoFile locates a file of the repository under test (the harness module replaces the
+// protocompile module by a directory).
+func execRepoFile(rel string) string {
+	root := os.Getenv("VERIF_REPO")
+	if root == "" {
+		root = "/repo"
+	}
+	return root + "/" + rel
+}
+
 func (execEngine) Exec(op string) string {
+	if strings.HasPrefix(op, "dpcompile") {
+		return execDpCompile(op)
+	}
 	c, ok := parseExecCase(op)
 	if !ok {
 		return "bad-op"
@@ -528,6 +598,10 @@ func (execEngine) Gen(r *Rand, tier string) [][]string {
 			}
 		}
 	}
+	// (1e) implicit dependency on a custom descriptor.proto that itself imports a file
+	add("dpcompile par=2 req=x")
+	add("dpcompile par=4 req=dp,x")
+	add("dpcompile par=1 req=dp,x")
 	// (1d) one dependency supplied as a pre-built descriptor and imported by k files at once: the
 	// import of that file into the shared symbol table must succeed at every parallelism (C05/C16)
 	sreps := 1
